@@ -6,6 +6,7 @@ use std::io::{self, IoSliceMut};
 use std::net::{IpAddr, Ipv4Addr, SocketAddr};
 use std::pin::Pin;
 use std::sync::{Arc, Mutex};
+use std::future::Future;
 use std::task::{Context, Poll, Waker};
 use std::time::Duration;
 
@@ -78,6 +79,7 @@ impl Fabric {
     /// Registers a socket at `port` (replacing an earlier one: restart with the same address).
     pub fn socket(self: &Arc<Self>, port: u16) -> Arc<FabricSocket> {
         let s = Arc::new(FabricSocket {
+            burst: Mutex::new((None, 0)),
             port,
             queue: Mutex::new(VecDeque::new()),
             waker: Mutex::new(None),
@@ -191,7 +193,13 @@ impl Fabric {
     }
 }
 
+/// At most this many datagrams per socket and virtual instant; more and the socket reports
+/// "not writable" until virtual time has advanced (a send buffer that fills up). Without it a
+/// sender that loops at one instant would keep the paused clock from ever advancing.
+const BURST_LIMIT: u32 = 256;
+
 pub struct FabricSocket {
+    burst: Mutex<(Option<tokio::time::Instant>, u32)>,
     port: u16,
     queue: Mutex<VecDeque<(u16, Vec<u8>)>>,
     waker: Mutex<Option<Waker>>,
@@ -208,20 +216,61 @@ pub fn addr(port: u16) -> SocketAddr {
     SocketAddr::new(IpAddr::V4(Ipv4Addr::LOCALHOST), port)
 }
 
-#[derive(Debug)]
-struct AlwaysWritable;
-impl quinn::UdpPoller for AlwaysWritable {
-    fn poll_writable(self: Pin<&mut Self>, _cx: &mut Context) -> Poll<io::Result<()>> {
+impl FabricSocket {
+    /// Counts a datagram against the burst budget of the current virtual instant.
+    fn over_budget(&self, count: bool) -> bool {
+        if tokio::runtime::Handle::try_current().is_err() {
+            return false;
+        }
+        let now = tokio::time::Instant::now();
+        let mut b = self.burst.lock().unwrap();
+        if b.0 != Some(now) {
+            *b = (Some(now), 0);
+        }
+        if count {
+            b.1 += 1;
+        }
+        b.1 > BURST_LIMIT
+    }
+}
+
+struct Writable {
+    socket: Arc<FabricSocket>,
+    sleep: Option<Pin<Box<tokio::time::Sleep>>>,
+}
+impl std::fmt::Debug for Writable {
+    fn fmt(&self, f: &mut std::fmt::Formatter<'_>) -> std::fmt::Result {
+        f.write_str("Writable")
+    }
+}
+impl quinn::UdpPoller for Writable {
+    fn poll_writable(mut self: Pin<&mut Self>, cx: &mut Context) -> Poll<io::Result<()>> {
+        if let Some(s) = self.sleep.as_mut() {
+            if s.as_mut().poll(cx).is_pending() {
+                return Poll::Pending;
+            }
+            self.sleep = None;
+        }
+        if self.socket.over_budget(false) {
+            let mut s = Box::pin(tokio::time::sleep(Duration::from_micros(200)));
+            if s.as_mut().poll(cx).is_pending() {
+                self.sleep = Some(s);
+                return Poll::Pending;
+            }
+        }
         Poll::Ready(Ok(()))
     }
 }
 
 impl quinn::AsyncUdpSocket for FabricSocket {
     fn create_io_poller(self: Arc<Self>) -> Pin<Box<dyn quinn::UdpPoller>> {
-        Box::pin(AlwaysWritable)
+        Box::pin(Writable { socket: self, sleep: None })
     }
 
     fn try_send(&self, transmit: &quinn::udp::Transmit) -> io::Result<()> {
+        if self.over_budget(true) {
+            return Err(io::Error::new(io::ErrorKind::WouldBlock, "fabric socket burst budget exhausted"));
+        }
         match transmit.segment_size {
             Some(seg) if seg > 0 => {
                 for chunk in transmit.contents.chunks(seg) {
